@@ -3,6 +3,7 @@ package c16
 import (
 	"bytes"
 	"fmt"
+	"io"
 	"io/fs"
 	"os"
 	"path/filepath"
@@ -65,6 +66,7 @@ type fsm struct {
 	// (cleared when the number is handed out), so that a dead entry is
 	// attributed to the open that left it
 	wouldBe map[int32]string
+	offs    map[int32]int64 // descriptor offsets of regular files
 }
 
 func (s *fsm) logf(f string, a ...any) { s.log = append(s.log, fmt.Sprintf(f, a...)) }
@@ -113,7 +115,7 @@ func runFSMount(fc fsmCase, engine int) *fsmResult {
 	}
 	defer os.RemoveAll(dir)
 	r := core.NewRng(int64(fc.Seed), 20)
-	s := &fsm{r: r, kind: fc.Kind, engine: engineNames[engine], res: res, fds: map[int32]*fsmObj{}, byPath: map[string]*fsmObj{}, wouldBe: map[int32]string{}}
+	s := &fsm{r: r, kind: fc.Kind, engine: engineNames[engine], res: res, fds: map[int32]*fsmObj{}, byPath: map[string]*fsmObj{}, wouldBe: map[int32]string{}, offs: map[int32]int64{}}
 	// the tree
 	mapfs := fstest.MapFS{}
 	root := &fsmObj{path: ".", isDir: true, kids: map[string]byte{}}
@@ -154,9 +156,14 @@ func runFSMount(fc fsmCase, engine int) *fsmResult {
 	}
 	before, _ := hostTree(dir)
 	var fsc wazero.FSConfig
-	if fc.Kind == "mapfs" {
+	switch fc.Kind {
+	case "mapfs":
 		fsc = wazero.NewFSConfig().WithFSMount(mapfs, "/")
-	} else {
+	case "seekfs": // files with Read+Seek but no ReadAt: fd_pread goes through wazero's seek fallback
+		fsc = wazero.NewFSConfig().WithFSMount(limitedFS{mapfs, true}, "/")
+	case "plainfs": // pure fs.File: neither Seek nor ReadAt
+		fsc = wazero.NewFSConfig().WithFSMount(limitedFS{mapfs, false}, "/")
+	default:
 		fsc = wazero.NewFSConfig().WithFSMount(os.DirFS(dir), "/")
 	}
 	e := getEngines()
@@ -218,6 +225,7 @@ func (s *fsm) step() string {
 			s.violate("fd_close:open-descriptor:errno="+errName(e), fmt.Sprintf("fd_close(%d)", fd))
 		}
 		delete(s.fds, fd)
+		delete(s.offs, fd)
 		return "close"
 	case x < 82 && len(s.fds) > 0:
 		s.useFd()
@@ -263,6 +271,7 @@ func (s *fsm) afterOpen(desc, kind string, errno uint32, fd int32, target *fsmOb
 			target.data = nil
 		}
 		s.fds[fd] = target
+		s.offs[fd] = 0
 		return
 	}
 	s.logf("%s -> %s [%s]", desc, errName(errno), kind)
@@ -435,20 +444,129 @@ func (s *fsm) checkFd(fd int32) {
 	if o.isDir || o.path == "?" {
 		return
 	}
-	off := int64(s.r.Intn(len(o.data)))
-	n := 1 + s.r.Intn(20)
+	s.dataOps(fd, o)
+}
+
+// dataOps: sequential and positional reads through one descriptor. Positional
+// I/O never moves the descriptor's offset: after an fd_pread (often issued
+// exactly at the current offset) fd_tell and the next fd_read continue where
+// the sequential reader was.
+func (s *fsm) dataOps(fd int32, o *fsmObj) {
+	g, r := s.g, s.r
+	size := int64(len(o.data))
+	seekable := s.kind != "plainfs"
+	// sometimes move the sequential position first
+	if r.Chance(1, 3) {
+		to := int64(r.Intn(int(size) + 1))
+		e := g.call("fd_seek", fdArg(fd), uint64(to), 0, offResult)
+		s.res.Counts["fd_seek"]++
+		if s.trapped("fd_seek") {
+			return
+		}
+		s.logf("fd_seek(%d,%d,SET) -> %s", fd, to, errName(e))
+		switch {
+		case e == 0 && g.u64(offResult) == uint64(to):
+			s.offs[fd] = to
+		case e == 0:
+			s.violate("fd_seek:wrong-offset", fmt.Sprintf("fd_seek(%d,%d,SET) reports %d", fd, to, g.u64(offResult)))
+			return
+		case seekable:
+			s.violate("fd_seek:errno="+errName(e), fmt.Sprintf("fd_seek(%d,%d,SET) on a seekable file of a %s mount", fd, to, s.kind))
+			return
+		}
+	}
+	off := s.offs[fd]
+	// positional read, half of the time exactly at the current offset
+	poff := off
+	where := "at-current-offset"
+	if r.Bool() {
+		poff, where = int64(r.Intn(int(size)+1)), "elsewhere"
+		if poff == off {
+			where = "at-current-offset"
+		}
+	}
+	n := 1 + r.Intn(20)
 	g.write(offData, bytes.Repeat([]byte{0xa5}, 64))
 	ip, in := g.putIovs([]iov{{offData, uint32(n)}})
-	e = g.call("fd_pread", fdArg(fd), ip, in, uint64(off), offResult)
+	g.write(offResult, []byte{0xee, 0xee, 0xee, 0xee})
+	e := g.call("fd_pread", fdArg(fd), ip, in, uint64(poff), offResult)
 	s.res.Counts["fd_pread"]++
+	s.res.Counts["fd_pread:"+where]++
 	if s.trapped("fd_pread") {
 		return
 	}
-	want := o.data[off:min(int(off)+n, len(o.data))]
-	if got := g.read(offData, min(g.u32(offResult), 64)); e != 0 || !bytes.Equal(got, want) {
-		s.logf("fd_pread(%d,%d bytes at %d) -> %s %x (model: %x)", fd, n, off, errName(e), got, want)
-		s.violate("fd_pread:wrong-data", fmt.Sprintf("fd_pread(%d,%d bytes at %d) of %q -> %s %x, the file has %x", fd, n, off, o.path, errName(e), got, want))
+	nread := int64(0)
+	want := o.data[poff:min(poff+int64(n), size)]
+	if e == 0 {
+		nread = int64(g.u32(offResult))
+		got := g.read(offData, uint32(min(nread, 64)))
+		s.logf("fd_pread(%d,%d bytes at %d) [%s, descriptor offset %d] -> OK %d bytes", fd, n, poff, where, off, nread)
+		if !bytes.Equal(got, want) {
+			s.violate("fd_pread:wrong-data", fmt.Sprintf("fd_pread(%d,%d bytes at %d) of %q -> %x, the file has %x", fd, n, poff, o.path, got, want))
+			return
+		}
+	} else {
+		s.logf("fd_pread(%d,%d bytes at %d) [%s] -> %s", fd, n, poff, where, errName(e))
+		s.res.Counts["fd_pread_refused"]++
+		if seekable {
+			// ReaderAt or (documented in RATIONALE.md) the io.Seeker fallback must serve it
+			s.violate("fd_pread:errno="+errName(e), fmt.Sprintf("fd_pread(%d,%d bytes at %d) on a %s mount", fd, n, poff, s.kind))
+			return
+		}
 	}
+	moved := func(now int64) string {
+		if now == poff+nread && nread > 0 {
+			return fmt.Sprintf("fd_pread(%d, %d bytes at %d) with the descriptor at offset %d left the descriptor at offset %d = end of the data it read; positional reads must not move the offset (%s mount)", fd, n, poff, off, now, s.kind)
+		}
+		return ""
+	}
+	// fd_tell
+	e = g.call("fd_tell", fdArg(fd), offResult)
+	s.res.Counts["fd_tell"]++
+	if s.trapped("fd_tell") {
+		return
+	}
+	if e == 0 {
+		now := int64(g.u64(offResult))
+		s.logf("fd_tell(%d) -> %d (model: %d)", fd, now, off)
+		if now != off {
+			if d := moved(now); d != "" {
+				s.violate("fd_pread:moves-descriptor-offset:"+where, d)
+			} else {
+				s.violate("fd_tell:wrong-offset:after-fd_pread", fmt.Sprintf("fd_tell(%d)=%d, the model says %d", fd, now, off))
+			}
+			return
+		}
+	} else {
+		s.logf("fd_tell(%d) -> %s", fd, errName(e))
+		if seekable {
+			s.violate("fd_tell:errno="+errName(e), fmt.Sprintf("fd_tell(%d) on a %s mount", fd, s.kind))
+			return
+		}
+	}
+	// sequential read continues at the model's offset
+	n2 := 1 + r.Intn(16)
+	g.write(offData, bytes.Repeat([]byte{0xa5}, 64))
+	ip, in = g.putIovs([]iov{{offData, uint32(n2)}})
+	g.write(offResult, []byte{0xee, 0xee, 0xee, 0xee})
+	e = g.call("fd_read", fdArg(fd), ip, in, offResult)
+	s.res.Counts["fd_read"]++
+	if s.trapped("fd_read") {
+		return
+	}
+	wantSeq := o.data[off:min(off+int64(n2), size)]
+	got := g.read(offData, min(g.u32(offResult), 64))
+	s.logf("fd_read(%d,%d bytes) -> %s %d bytes (model: %d bytes from offset %d)", fd, n2, errName(e), len(got), len(wantSeq), off)
+	if e != 0 || !bytes.Equal(got, wantSeq) {
+		alt := o.data[min(poff+nread, size):min(poff+nread+int64(n2), size)]
+		if e == 0 && nread > 0 && bytes.Equal(got, alt) && poff+nread != off {
+			s.violate("fd_pread:moves-descriptor-offset:"+where, moved(poff+nread)+fmt.Sprintf("; the next fd_read returned %x, the bytes after the pread data, instead of %x", got, wantSeq))
+		} else {
+			s.violate("fd_read:wrong-data:after-fd_pread", fmt.Sprintf("fd_read(%d,%d bytes) at offset %d of %q -> %s %x, the file has %x", fd, n2, off, o.path, errName(e), got, wantSeq))
+		}
+		return
+	}
+	s.offs[fd] = off + int64(len(got))
 }
 
 func (s *fsm) useFd() {
@@ -605,3 +723,42 @@ func (s *fsm) sweep() {
 		}
 	}
 }
+
+// limitedFS wraps an in-memory fs.FS so that its files expose only
+// Read/Stat/Close/ReadDir and, when seek is set, Seek - never ReadAt.
+type limitedFS struct {
+	inner fs.FS
+	seek  bool
+}
+
+func (l limitedFS) Open(name string) (fs.File, error) {
+	f, err := l.inner.Open(name)
+	if err != nil {
+		return nil, err
+	}
+	if l.seek {
+		if sk, ok := f.(io.Seeker); ok {
+			return &seekOnlyFile{plainFile{f}, sk}, nil
+		}
+	}
+	return &plainFile{f}, nil
+}
+
+type plainFile struct{ f fs.File }
+
+func (p *plainFile) Read(b []byte) (int, error) { return p.f.Read(b) }
+func (p *plainFile) Stat() (fs.FileInfo, error) { return p.f.Stat() }
+func (p *plainFile) Close() error               { return p.f.Close() }
+func (p *plainFile) ReadDir(n int) ([]fs.DirEntry, error) {
+	if d, ok := p.f.(fs.ReadDirFile); ok {
+		return d.ReadDir(n)
+	}
+	return nil, &fs.PathError{Op: "readdir", Path: "", Err: fs.ErrInvalid}
+}
+
+type seekOnlyFile struct {
+	plainFile
+	sk io.Seeker
+}
+
+func (s *seekOnlyFile) Seek(off int64, whence int) (int64, error) { return s.sk.Seek(off, whence) }
